@@ -38,11 +38,12 @@ def equal_means(rng, count):
     rankings): a block of k rankings in which x is tied with y, then b-1 copies of the block without x"""
     out = []
     for _ in range(count):
-        k = rng.randint(2, 4)
-        b = rng.choice([2, 3, 5, 7])
+        # k rankings per block, b blocks: (k, b) chosen where t/k and (b t)/(b k) are equal rationals whose naive float
+        # evaluations total * (1/count) differ for most totals t (e.g. 5/3 vs 25/15)
+        k, b = rng.choice([(3, 5), (3, 11), (5, 3), (5, 5), (5, 7), (5, 11), (3, 10), (2, 3), (4, 5)])
         block = []
         for _ in range(k):
-            others = [3, 4][:rng.randint(1, 2)]
+            others = [3, 4, 5][:rng.randint(1, 3)]
             rng.shuffle(others)
             cut = rng.randint(0, len(others))
             r = [[e] for e in others[:cut]] + [[1, 2]] + [[e] for e in others[cut:]]
